@@ -38,6 +38,8 @@ theorem stepI_inv (c : Cfg) (hc : c.Good) (x x' : Inst) (e : Ev) (h : stepI c x 
   | tMunmap => exact inv_tMunmap c hc x x' h hinv
   | tExit => exact inv_tExit c hc x x' h hinv
   | kExit => exact inv_kExit c hc x x' h hinv
+  | tDropVal => exact inv_tDropVal c hc x x' h hinv
+  | tDropPanic => exact inv_tDropPanic c hc x x' h hinv
 
 /-- every instance satisfies the invariant -/
 def SInv (s : St) : Prop := ∀ i, IInv (s.inst i)
